@@ -76,6 +76,64 @@ def typed_doc(rnd):
     }
 
 
+def nested_doc(rnd):
+    """double-encoded payloads: string values that are themselves JSON text (as produced by json.dumps upstream)"""
+    inner = {"k": rnd.choice(["x", ' q"u ', "Zed", "12", "it's"]), "n": rnd.choice([0, 5, -3, 12]), "b": rnd.choice([True, False]),
+             "in": {"k": rnd.choice(["y", "a\\b"])}, "l": rnd.choice([[], [1, "x"]])}
+    payload = rnd.choice([dumps(inner), dumps(inner), dumps(inner), json.dumps(inner), "not json", "{bad", dumps([1, 2]), dumps("str"), "12"])
+    d = {"payload": payload, "p2": dumps({"payload": dumps(inner), "k": "outer"}), "k": "top", "num": rnd.choice([12, None])}
+    if rnd.random() < 0.15:
+        del d["payload"]
+    return d
+
+
+INVALID = object()
+
+
+def parse_env(doc, depth=3):
+    """the JSON-text parser restricted to the texts an expression over `doc` can hand to PARSE_JSON: for every node the
+    text it converts to (a string: itself; anything else: its JSON text) ↦ json.loads of it, or `!` when it is not JSON"""
+    env = {}
+
+    def text_of(x):
+        return x if isinstance(x, str) else dumps(x)
+
+    def walk(x, d):
+        t = text_of(x)
+        if t not in env and d > 0:
+            try:
+                v = json.loads(t)
+                if isinstance(v, float) or (isinstance(v, (list, dict)) and not _int_only(v)):
+                    raise ValueError
+                env[t] = v
+                walk(v, d - 1)
+            except ValueError:
+                env[t] = INVALID
+        if isinstance(x, list):
+            for y in x:
+                walk(y, d)
+        elif isinstance(x, dict):
+            for y in x.values():
+                walk(y, d)
+
+    walk(doc, depth)
+    return env
+
+
+def _int_only(v) -> bool:
+    if isinstance(v, float):
+        return False
+    if isinstance(v, list):
+        return all(_int_only(y) for y in v)
+    if isinstance(v, dict):
+        return all(_int_only(y) for y in v.values())
+    return True
+
+
+def enc_env(env) -> str:
+    return enc_list([f"{enc_str(t)}=" + ("!" if v is INVALID else enc_json(v, sep=",")) for t, v in env.items()])
+
+
 # ------------------------------------------------------------------------------------------------
 # wire encoding of documents and of sqlglot trees
 # ------------------------------------------------------------------------------------------------
@@ -122,7 +180,9 @@ def to_E(node) -> list[str]:
             return ["C"]
         raise Unsupported("column")
     if isinstance(node, exp.ParseJSON):
-        return ["C"]
+        if isinstance(node.this, exp.Literal):
+            return ["C"]
+        return ["J"] + to_E(node.this)
     if isinstance(node, exp.Split):
         return ["C"]
     if isinstance(node, exp.JSONExtract):
@@ -384,6 +444,8 @@ def obs_exc(e) -> str:
         return "Econv"
     if isinstance(e, duckdb.ParserException):
         return "Eparser"
+    if isinstance(e, duckdb.InvalidInputException):
+        return "Einvalid"
     if isinstance(e, se.ProgrammingError) and e.errno == 2043:
         return "Ebinder"
     return f"X:{type(e).__name__}:{str(e)[:80]}"
@@ -530,7 +592,8 @@ def build(chk):
     quick = chk.tier == "quick"
     gdocs = exhaustive_docs() + [rand_doc(rnd) for _ in range(24 if quick else 120)]
     tdocs = [typed_doc(rnd) for _ in range(30 if quick else 100)]
-    tables = {"tg": gdocs, "tc": gdocs[::3], "tt": tdocs}
+    ndocs = [nested_doc(rnd) for _ in range(24 if quick else 80)]
+    tables = {"tg": gdocs, "tc": gdocs[::3], "tt": tdocs, "tn": ndocs}
 
     exprs = []  # (table, sql_expr, tag)
     paths = [[s] for s in SEGS] + [[a, b] for a in SEGS for b in SEGS]
@@ -558,6 +621,21 @@ def build(chk):
     for e in ["trim(upper({v}:a))", "upper(trim({v}:a))", "{v}:a::varchar::varchar", "upper({v}:a::varchar)",
               "trim({v}:a::varchar)", "lower(upper({v}:a[0]))", "({v}:a)::varchar", "({v}:a[1])", "array_size(({v}:a))"]:
         exprs.append(("tg", e, "adv:nested-functions"))
+    # a cast-of-path nested inside another cast-of-path: PARSE_JSON over an extracted (double-encoded) string, navigated again
+    inners = ["parse_json({v}:payload::varchar)", "parse_json({v}:payload::string)", "parse_json(cast({v}:payload as varchar))",
+              "parse_json(get_path({v}, 'payload')::varchar)", "parse_json({v}:p2::varchar)",
+              "parse_json(parse_json({v}:p2::varchar):payload::varchar)", "parse_json({v}:num::varchar)", "parse_json({v}:k::varchar)"]
+    outers = [":k", ":n", ":b", ":in.k", ":l", ":zz", ":payload", ":l[1]"]
+    nuses = ["{x}", "{x}::varchar", "{x}::string", "{x}::int", "{x}::boolean", "upper({x})", "lower({x})", "trim({x})", "{x} is null", "array_size({x})",
+             "get_path({i}, '{p}')::varchar", "{x}::varchar = 'x'", "{x}::int + 1", "not {x}::boolean"]
+    for inner in inners:
+        for o in outers:
+            for u in (nuses if not quick else rnd.sample(nuses, 6) + ["{x}::varchar", "{x}"]):
+                x = inner + o
+                e = u.replace("{x}", x).replace("{i}", inner).replace("{p}", o[1:])
+                if "get_path(" in u and "[" in o:
+                    continue
+                exprs.append(("tn", e, "nested:" + ("two-level" if inner.count("parse_json") > 1 else "one-level")))
     # operator contexts over the typed documents
     for _ in range(350 if quick else 3000):
         ty = rnd.choice(["bool", "bool", "bool", "int", "text"])
@@ -672,10 +750,21 @@ def build_small(chk, rnd, tasks, meta):
         lit = f"parse_json({sql_str(dumps(d))})"
         for mode, proj in (("value", "f.value"), ("text", "f.value::varchar"), ("index", "f.index")):
             for src in (f"(select {lit} as a) s, lateral flatten(input => s.a) f",
-                        f"(select parse_json({sql_str(dumps({'w': d}))}) as a) s, lateral flatten(input => s.a:w) f"):
+                        f"(select parse_json({sql_str(dumps({'w': d}))}) as a) s, lateral flatten(input => s.a:w) f",
+                        # the flatten as the FIRST item of FROM (the natural form for literals and computed arrays)
+                        f"lateral flatten(input => {lit}) f",
+                        f"lateral flatten(input => parse_json({sql_str(dumps({'w': d}))}):w) f"):
                 sql = f"select {proj} from {src}"
                 tasks.append(("rows", sql))
                 meta.append({"kind": "flatten", "sql": sql, "line": f"json\tflatten\t{enc_json(d)}\t{mode}", "tag": "flatten:" + mode})
+    for sv, sep in [('a b,c"d,it\'s', ","), ("x", ","), ("", ","), ("a;;b", ";")]:
+        pieces = sv.split(sep)
+        for mode, proj in (("value", "f.value"), ("text", "f.value::varchar"), ("text", "f.value::string")):
+            for src in (f"lateral flatten(input => split({sql_str(sv)}, {sql_str(sep)})) f",
+                        f"(select 1 as one) o, lateral flatten(input => split({sql_str(sv)}, {sql_str(sep)})) f"):
+                sql = f"select {proj} from {src}"
+                tasks.append(("rows", sql))
+                meta.append({"kind": "flatten", "sql": sql, "line": f"json\tflatten\t{enc_json(pieces)}\t{mode}", "tag": "flatten:computed:" + mode})
     # PARSE_JSON / TRY_PARSE_JSON round trip (oracle: the document itself)
     pj = exhaustive_docs()[:: (4 if quick else 1)] + [rand_doc(rnd) for _ in range(20 if quick else 200)] + [x for x in LEAVES if x is not None]
     for d in pj:
@@ -695,13 +784,22 @@ def build_small(chk, rnd, tasks, meta):
 # ------------------------------------------------------------------------------------------------
 def model_lines(tables, meta):
     lines, index = [], []
+    env_cache: dict = {}
+
+    def env_of(table, di, d):
+        if (table, di) not in env_cache:
+            env_cache[(table, di)] = enc_env(parse_env(d))
+        return env_cache[(table, di)]
+
     for mi, m in enumerate(meta):
         if m["kind"] == "tbl":
+            with_env = ";J;" in (";" + m["E"] + ";") or m["E"].startswith("J;")
             for di, d in enumerate(tables[m["table"]]):
-                lines.append(f"json\teval\t{enc_json(d)}\t{m['E']}")
+                lines.append(f"json\teval\t{enc_json(d)}\t{m['E']}" + (f"\t{env_of(m['table'], di, d)}" if with_env else ""))
                 index.append((mi, di))
         elif m["kind"] == "lit":
-            lines.append(f"json\teval\t{enc_json(m['doc'])}\t{m['E']}")
+            with_env = ";J;" in (";" + m["E"] + ";") or m["E"].startswith("J;")
+            lines.append(f"json\teval\t{enc_json(m['doc'])}\t{m['E']}" + (f"\t{enc_env(parse_env(m['doc']))}" if with_env else ""))
             index.append((mi, None))
         elif m.get("line"):
             lines.append(m["line"])
@@ -850,7 +948,7 @@ def replay(chk, case) -> None:
         else:
             real = _worker(({}, [("one", case["sql"])]))[0]
             what = f"`{case['sql']}`"
-        rep = common.batch([f"json\teval\t{enc_json(case['doc'])}\t{case['E']}"])[0]
+        rep = common.batch([f"json\teval\t{enc_json(case['doc'])}\t{case['E']}\t{enc_env(parse_env(case['doc']))}"])[0]
         verdict(chk, rep, real, case, what, "C11_partial/C11_nav (correspondence with evalDuck ∘ pipeline)")
     elif kind in ("obj", "arr", "flatten"):
         real = _worker(({}, [("rows" if kind == "flatten" else "one", case["sql"])]))[0]
